@@ -4,13 +4,13 @@
 */
 #include "vh.h"
 
-static void walk (int format, int ch, int rate, int mode, int steps)
+static void walk (int format, int ch, int rate, int mode, int steps, int noise)
 {	MEMF m ; SNDFILE *s ; SF_INFO ri ; const char *fn = vh_fname (format) ; int B = vh_block (format, ch, rate), t, st, sub = format & SF_FORMAT_SUBMASK ;
 	long N = B > 1 ? 4 * B + B / 3 + 5 : 4507, F, got = -1, pos = 0 ;	/* at least ~4500 frames so that requests beyond the 2048/4096-item staging buffers exist for small-block codecs too */ char *ref [T_N] ; int lossless = vh_is_lossless_int (format) || vh_is_fp (sub) ;
 	if (sub >= SF_FORMAT_ALAC_16 && sub <= SF_FORMAT_ALAC_32) { B = 4096 ; N = 2 * 4096 + 1500 ; }
 	if (N < 4500 + B) N = 4500 + B + B / 3 ;
 	if (N * ch > 80000) N = 80000 / ch + 1 ;
-	if (vh_make_file (&m, format, ch, rate, N, lossless ? 0 : 1) != 0) { vh_statf (1, "cannot_write:%s", fn) ; mv_free (&m) ; return ; }
+	if (vh_make_file (&m, format, ch, rate, N, noise ? 2 : lossless ? 0 : 1) != 0) { vh_statf (1, "cannot_write:%s", fn) ; mv_free (&m) ; return ; }
 	/* references: one sequential read per type, each from a fresh handle */
 	for (t = 0 ; t < T_N ; t++)
 	{	long g ;
@@ -103,18 +103,18 @@ int main (int argc, char **argv)
 	vh_init (argc, argv, "c06_seek_partition", "C06") ;
 	vh_enum_formats () ;
 	for (f = 0 ; f < vh_nfmts ; f++) for (e = 0 ; e < (vh_thorough ? 3 : 1) ; e++)
-	{	int chs [8], nch, format = vh_fmts [f].format | endians [e], nw = vh_thorough ? 16 : 8 ;
+	{	int chs [8], nch, format = vh_fmts [f].format | endians [e], nw = vh_thorough ? 32 : 16 ;
 		if (vh_fmts [f].major == SF_FORMAT_SD2) continue ;
 		if (e > 0 && !vh_accepts (format, 1, 8000) && !vh_accepts (format, 2, 8000)) continue ;
 		nch = vh_channels_for (format, chs, 8, vh_thorough) ;
 		for (c = 0 ; c < nch ; c++) for (w = 0 ; w < nw ; w++)
-		{	int mode = (w & 1), steps = mode == 0 ? 100000 : (vh_thorough ? 5000 : 800) ;
+		{	int mode = (w & 1), steps = mode == 0 ? 100000 : (vh_thorough ? 6000 : 2000) ;
 			if (chs [c] > 17 && w > 1) continue ;
 			if (!vh_case ("%s/%s ch=%d walk=%d %s", vh_fname (format), vh_endname (format), chs [c], w, mode ? "seek+read" : "partition")) continue ;
 			vh_distinct (vh_fnv (0, &format, 4) ^ ((uint64_t) chs [c] << 32) ^ ((uint64_t) w << 44) ^ vh_rs) ;
 			vh_statf (1, "fmt:%s", vh_fname (format)) ;
 			vh_sample ("%s ch=%d: %s walk of up to %d steps (reads of 1, B-1, B, B+1, random sizes in 4 types; seeks SET/CUR/END to 0, 1, B-1, B, B+1, F-B, F-1, F, random, past-end, negative)", vh_fname (format), chs [c], mode ? "seek+read" : "pure partition", steps) ;
-			walk (format, chs [c], 8000, mode, steps) ;
+			walk (format, chs [c], 8000, mode, steps, (w & 2) != 0) ;		/* walks 2, 3, 6, 7 ...: position-addressable noise instead of the smooth signal */
 			}
 		}
 	return vh_finish () ;
